@@ -1,6 +1,7 @@
 package main
 
-// Family remote17 (C17): real engines in one process, connected by their real
+// Family remote17 (C17), binary hvn (its own binary so that only the hook
+// files this family needs are overlaid): real engines in one process, connected by their real
 // remotes over loopback TCP.  Every harness process uses loopback addresses
 // of its own (127.a.b.c derived from its pid and a per-case counter) and
 // ports below the ephemeral range, so that concurrent harness processes and
@@ -21,8 +22,12 @@ package main
 import (
 	"encoding/json"
 	"fmt"
+	"io"
+	"log"
+	"log/slog"
 	"net"
 	"os"
+	"runtime"
 	"strconv"
 	"strings"
 	"sync"
@@ -50,6 +55,11 @@ type r17Case struct {
 	// churn
 	Cycles int `json:"cycles"`
 	GapUs  int `json:"gap_us"`
+	// up: the scenario is run Rounds times on fresh addresses; the first round that is not clean is reported
+	Rounds int `json:"rounds"`
+	// reconnect
+	Bursts   int `json:"bursts"`
+	Restarts int `json:"restarts"`
 }
 
 type r17Obs struct {
@@ -57,7 +67,15 @@ type r17Obs struct {
 	Err  string `json:"err,omitempty"`
 	Hang bool   `json:"hang"`
 	// up / down phase 2
-	Got      [][][3]int `json:"got"`
+	Got [][][3]int `json:"-"`
+	// what each recording actor received, projected per sender and run-length
+	// encoded: per target a list of (sender, first seq, count, sender-ok) where
+	// the sender's consecutive arrivals at that target step by the number of
+	// targets (message j of sender i goes to target (i+j) mod T)
+	Runs     [][][4]int `json:"runs"`
+	Received []int      `json:"received"`
+	// reconnect: per sender, over all incarnations of the peer in turn, the arrivals as (burst, first number, count)
+	BRuns    [][][3]int `json:"bruns"`
 	Requests int        `json:"requests"`
 	Replies  int        `json:"replies"`
 	// down
@@ -78,6 +96,13 @@ type r17Obs struct {
 
 var r17Counter int
 
+func quiet() {
+	// many harness processes run side by side: a few threads each are enough
+	runtime.GOMAXPROCS(4)
+	slog.SetDefault(slog.New(slog.NewTextHandler(io.Discard, nil)))
+	log.SetOutput(io.Discard)
+}
+
 // r17Addr: a loopback address private to this process and case.
 func r17Addr(node int) string {
 	pid := os.Getpid()
@@ -91,6 +116,7 @@ const r17Wait = 60 * time.Second
 // stream; "req" is answered with "rep" and the same ID.
 type r17Rec struct {
 	mu      sync.Mutex
+	bursts  [][3]int // (sender, burst, number)
 	got     [][3]int
 	fences  map[int]bool
 	expect  func(sender int) *actor.PID
@@ -114,6 +140,13 @@ func (r *r17Rec) Receive(c *actor.Context) {
 		}
 		r.mu.Lock()
 		r.got = append(r.got, [3]int{i, j, okS})
+		r.mu.Unlock()
+	case strings.HasPrefix(m.Address, "b:"):
+		var i, b int
+		fmt.Sscanf(m.Address, "b:%d:%d", &i, &b)
+		j, _ := strconv.Atoi(m.ID)
+		r.mu.Lock()
+		r.bursts = append(r.bursts, [3]int{i, b, j})
 		r.mu.Unlock()
 	case strings.HasPrefix(m.Address, "fence:"):
 		i, _ := strconv.Atoi(m.Address[6:])
@@ -225,6 +258,38 @@ func r17Expect(a *r17Node, senders []bool, tag string) func(int) *actor.PID {
 		}
 		return actor.NewPID(a.addr, "snd/"+strconv.Itoa(i)+tag)
 	}
+}
+
+// r17UpRounds runs the "up" scenario c.Rounds times, each time on fresh
+// addresses (so every round starts with senders racing the set-up of the
+// connection), and reports the first round that is not clean: something
+// missing, or some sender's arrivals at a target not one ascending run.
+func r17UpRounds(c r17Case) (obs r17Obs) {
+	n := c.Rounds
+	if n < 1 {
+		n = 1
+	}
+	for k := 0; k < n; k++ {
+		if k > 0 {
+			r17Counter++
+		}
+		obs = r17Up(c)
+		runs, _ := r17Runs(obs.Got)
+		clean := obs.Err == "" && !obs.Hang && obs.Replies == obs.Requests
+		for _, rs := range runs {
+			bySender := map[int]int{}
+			for _, r := range rs {
+				bySender[r[0]]++
+				if bySender[r[0]] > 1 || r[3] != 1 {
+					clean = false
+				}
+			}
+		}
+		if !clean {
+			return
+		}
+	}
+	return
 }
 
 func r17Up(c r17Case) (obs r17Obs) {
@@ -557,6 +622,165 @@ func r17Churn(c r17Case) (obs r17Obs) {
 	return
 }
 
+// r17Runs projects each target's arrivals per sender (in arrival order) and
+// run-length encodes them with stride len(got).
+func r17Runs(got [][][3]int) ([][][4]int, []int) {
+	runs := [][][4]int{}
+	recv := []int{}
+	stride := len(got)
+	for _, g := range got {
+		recv = append(recv, len(g))
+		per := map[int][][3]int{}
+		var order []int
+		for _, x := range g {
+			if _, ok := per[x[0]]; !ok {
+				order = append(order, x[0])
+			}
+			per[x[0]] = append(per[x[0]], x)
+		}
+		for a := 1; a < len(order); a++ {
+			for b := a; b > 0 && order[b] < order[b-1]; b-- {
+				order[b], order[b-1] = order[b-1], order[b]
+			}
+		}
+		rs := [][4]int{}
+		for _, i := range order {
+			for _, x := range per[i] {
+				if n := len(rs); n > 0 && rs[n-1][0] == i && rs[n-1][3] == x[2] && rs[n-1][1]+rs[n-1][2]*stride == x[1] {
+					rs[n-1][2]++
+				} else {
+					rs = append(rs, [4]int{i, x[1], 1, x[2]})
+				}
+			}
+		}
+		runs = append(runs, rs)
+	}
+	return runs, recv
+}
+
+// r17Reconnect: sender goroutines send bursts of numbered messages at one actor
+// of the peer, with a pause between bursts, while the peer is stopped and
+// started again on its address c.Restarts times.  Which messages get through
+// is a matter of timing; reported is, per sender, what arrived over all
+// incarnations of the peer in turn, run-length encoded.
+func r17Reconnect(c r17Case) (obs r17Obs) {
+	obs.Kind = "reconnect"
+	a, err := r17Start(r17Addr(0))
+	if err != nil {
+		obs.Err = err.Error()
+		return
+	}
+	defer a.stop()
+	peerAddr := r17Addr(1)
+	mon := &r17Monitor{peer: peerAddr}
+	mpid := a.e.Spawn(func() actor.Receiver { return mon }, "mon", actor.WithID("1"))
+	a.e.Subscribe(mpid)
+	a.e.BroadcastEvent(r17Sentinel{n: 1})
+	r17Until(r17Wait, func() bool { _, _, s := mon.snap(); return s == 1 })
+	target := actor.NewPID(peerAddr, "rec/0")
+	router := remote.VerifRouterPID(a.r)
+	var recs []*r17Rec
+	newPeer := func() (*r17Node, error) {
+		b, err := r17Start(peerAddr)
+		if err != nil {
+			return nil, err
+		}
+		rec := &r17Rec{fences: map[int]bool{}, expect: func(int) *actor.PID { return nil }}
+		recs = append(recs, rec)
+		b.e.Spawn(func() actor.Receiver { return rec }, "rec", actor.WithID("0"))
+		return b, nil
+	}
+	b, err := newPeer()
+	if err != nil {
+		obs.Err = "peer: " + err.Error()
+		return
+	}
+	var wg sync.WaitGroup
+	for i := range c.Senders {
+		i := i
+		wg.Add(1)
+		go func() {
+			defer wg.Done()
+			for bu := 0; bu < c.Bursts; bu++ {
+				adr := fmt.Sprintf("b:%d:%d", i, bu)
+				for j := 0; j < c.Per; j++ {
+					a.e.Send(target, &actor.PID{Address: adr, ID: strconv.Itoa(j)})
+				}
+				time.Sleep(time.Duration(c.GapUs) * time.Microsecond)
+			}
+			a.e.Send(target, &actor.PID{Address: "fence:" + strconv.Itoa(i), ID: "end"})
+		}()
+	}
+	for k := 0; k < c.Restarts; k++ {
+		// messages are flowing to the current incarnation (or, at least, a while has passed)
+		cur := recs[len(recs)-1]
+		r17Until(3*time.Second, func() bool {
+			cur.mu.Lock()
+			defer cur.mu.Unlock()
+			return len(cur.bursts) > 0
+		})
+		time.Sleep(time.Duration(c.GapUs*(2+k)) * time.Microsecond)
+		u0, _, _ := mon.snap()
+		b.stop()
+		r17Until(2*time.Second, func() bool { u, _, _ := mon.snap(); return u > u0 })
+		for try := 0; ; try++ {
+			b, err = newPeer()
+			if err == nil {
+				break
+			}
+			if try > 200 {
+				obs.Err = "peer restart: " + err.Error()
+				wg.Wait()
+				return
+			}
+			time.Sleep(10 * time.Millisecond)
+		}
+	}
+	defer func() { b.stop() }()
+	wg.Wait()
+	// everything that will arrive has arrived: the sending node is at rest and the fences are in (or, when
+	// the last connection attempt swallowed them, nothing has moved for a while)
+	last := recs[len(recs)-1]
+	r17Until(r17Wait, func() bool { return actor.VerifIdle(a.e, router) })
+	quietSince, seen := time.Now(), -1
+	r17Until(20*time.Second, func() bool {
+		if _, f := last.snapshot(); f >= len(c.Senders) {
+			return true
+		}
+		last.mu.Lock()
+		n := len(last.bursts)
+		last.mu.Unlock()
+		if n != seen {
+			seen, quietSince = n, time.Now()
+		}
+		return actor.VerifIdle(a.e, router) && time.Since(quietSince) > 1500*time.Millisecond
+	})
+	obs.Unreach1, _, _ = mon.snap()
+	obs.BRuns = make([][][3]int, len(c.Senders))
+	for i := range obs.BRuns {
+		obs.BRuns[i] = [][3]int{}
+	}
+	for _, rec := range recs {
+		rec.mu.Lock()
+		for _, x := range rec.bursts {
+			i := x[0]
+			if i < 0 || i >= len(obs.BRuns) {
+				obs.Err = "message of an unknown sender"
+				continue
+			}
+			rs := obs.BRuns[i]
+			if n := len(rs); n > 0 && rs[n-1][0] == x[1] && rs[n-1][1]+rs[n-1][2] == x[2] {
+				rs[n-1][2]++
+			} else {
+				rs = append(rs, [3]int{x[1], x[2], 1})
+			}
+			obs.BRuns[i] = rs
+		}
+		rec.mu.Unlock()
+	}
+	return
+}
+
 func r17Listening(addr string) bool {
 	conn, err := net.DialTimeout("tcp", addr, 2*time.Second)
 	if err != nil {
@@ -650,7 +874,9 @@ func runRemote17(raw json.RawMessage) (res any, err error) {
 		}()
 		switch c.Kind {
 		case "up":
-			obs = r17Up(c)
+			obs = r17UpRounds(c)
+		case "reconnect":
+			obs = r17Reconnect(c)
 		case "down":
 			obs = r17Down(c)
 		case "stop":
@@ -662,6 +888,7 @@ func runRemote17(raw json.RawMessage) (res any, err error) {
 		}
 	}()
 	obs.WallMs = time.Since(t0).Milliseconds()
+	obs.Runs, obs.Received = r17Runs(obs.Got)
 	if obs.Got == nil {
 		obs.Got = [][][3]int{}
 	}
